@@ -27,6 +27,7 @@ Inductive op :=
 | Pop (k : Z) (dflt : option Z)              (* d.pop(k) / d.pop(k, dflt) *)
 | PopItem
 | Clear
+| UpdateBad (ps : list (Z * Z)) (len : Z)   (* d.update(ps + [an element of length len <> 2]): not a pair *)
 | Ctor (asmap : bool) (ps : list (Z * Z)).  (* d = TraitDict(dict(ps) / ps, validators): a new object, the history
                                                continues on it (for a Dict trait: owner.d = dict(ps) / ps) *)
 
@@ -187,6 +188,13 @@ Section WithValidators.
         end
     | Clear =>                                     (* clear, l.234-239 *)
         if mempty m then ok [] [] RNone else ok [] [(m, [], [])] RNone
+    | UpdateBad ps _ =>
+        (* `for key, value in items` fails to unpack the malformed element after the pairs before it were validated;
+           nothing was written yet (super().update comes after the loop) *)
+        match upd_loop m ps [] [] [] with
+        | None => raise TraitError m
+        | Some _ => raise ValueError m
+        end
     | Ctor asmap ps =>                             (* a failing construction leaves the old object in place *)
         match ctor_loop (items_of asmap ps) [] with
         | None => raise TraitError m
